@@ -378,8 +378,10 @@ class Scenario:
             raise AssertionError("unknown op %r" % (op,))
 
     def _resolved(self, tid, fut):
+        # observation only: reads the future through the base class (the instrumented reads are scheduling points, and a
+        # low-priority thread parked there would log the resolution long after it happened)
         S = esim.S
-        if fut.cancelled():
+        if _BASE_FUTURE[0].cancelled(fut):
             S.obs(ev="resolve", t=tid, outcome="cancelled", by=esim.me())
             return
         ex = fut.exception()
